@@ -13,7 +13,7 @@ def run(res, tier):
     proved = prove(res, MODULE, THEOREMS)
     n = 10 if tier == "quick" else 80
     base = seed() * 100003
-    sources = [gen_layout(base + i) for i in range(n)] + [gen_gated(base + i) for i in range(n // 3)] + \
+    sources = [gen_layout(base + i, profile=i) for i in range(n)] + [gen_gated(base + i) for i in range(n // 3)] + \
               [gen_latch(base + i) for i in range(n // 3)] + [gen_scalar(base + i) for i in range(n // 3)]
     jobs = matrix(sources, tier)
     recs, geo, wfv, sem = run_geo(jobs)
